@@ -10,11 +10,26 @@ C12_FAST = [f"rt_{w}" for w in W] + [f"pair_{w}" for w in W] + ["rt_f32", "rt_f6
 C12_WIDE = ["pair_u128", "pair_i128"]
 
 PROPS = {
+    "C09": {
+        "verus": ["c09_staging"],
+        "kani": [],
+        "native": [
+            {"name": "cached_maps_read_your_writes", "bin": "replay_c09", "crate": "replay", "tiers": ("quick", "thorough"),
+             "bound": "directed staging histories (W1, W2) + 26 seeded random histories of get/insert/remove over the three cached maps with batches submitted at random points, cache capacities 1/2/4/64, sets across the 1024 spill threshold; every read compared with a reference map (real code, native execution, background writer not controlled)"},
+        ],
+        "witness": witness.c09,
+        "assumptions": [
+            "ONLY the overlay arithmetic of the key-to-set cache is under contract: Ord for VersionedOperation, ConcurrentLog::apply_message_to_heap, ConcurrentLog::replay (+ spec-level lemma: overlay == fold of all operations in issue order, on any base set)",
+            "NOT decided: WideColumnCache / CacheSingleMap / CacheDynamicMap read-your-writes (pin counts x TinyLFU eviction x single-flight fills x after-commit thread: a concurrent argument spanning four components), races between reads and flushes, get_snapshot's glue (RwLock, deferred SegQueue, collect + sort_by_key), fetch_entry / MergeIterator (generic iterators): these are covered only by the bounded run",
+            "std models: BinaryHeap (abstract-order view; peek/pop yield a greatest element w.r.t. Ord), HashSet view under obeys_key_model, derived ordering of Epoch, element Clone/Hash/Eq sanity (axiom_element_type)",
+            "FxBuildHasher is an interface stand-in; ConcurrentLog is a struct stand-in (the functions under contract are associated functions that do not touch self)",
+        ],
+    },
     "C13": {
         "expand": [("hash_fix", "hash_expanded.rs")],
         "verus": ["c13_framing", "c13_derive"],
         "kani": [
-            {"crate": "c13", "kind": "complete", "harnesses": ['f32_nan_normalised_else_bit_exact', 'f64_nan_normalised_else_bit_exact', 'bool_char_images', 'le_u8', 'le_i8', 'le_u16', 'le_i16', 'le_u32', 'le_i32', 'le_u64', 'le_i64', 'le_u128', 'le_i128', 'le_usize', 'le_isize'], "tiers": ("quick", "thorough"), "jobs": 12,
+            {"crate": "c13", "kind": "complete", "harnesses": ['f32_nan_normalised_else_bit_exact', 'f64_nan_normalised_else_bit_exact', 'bool_char_images', 'discriminant_bytes_identify_the_variant', 'le_u8', 'le_i8', 'le_u16', 'le_i16', 'le_u32', 'le_i32', 'le_u64', 'le_i64', 'le_u128', 'le_i128', 'le_usize', 'le_isize'], "tiers": ("quick", "thorough"), "jobs": 12,
              "bound": "none: full-domain symbolic inputs, loop bounded by the byte width"},
         ],
         "native": [
